@@ -28,6 +28,10 @@ class Unsupported(Exception):
             ex.poison(f"UNSUPPORTED {msg}")
 
 
+class UnsupportedAttribute(Unsupported, AttributeError):
+    """A library attribute the model does not provide (hasattr() sees it as absent; the path is poisoned)."""
+
+
 # ----------------------------------------------------------------------------
 # boolean term helpers with constant folding
 # ----------------------------------------------------------------------------
